@@ -62,7 +62,7 @@ func checkC14(ctx *Ctx) {
 	w := &Worker{}
 	defer w.Close()
 	r := NewRng(ctx.Seed)
-	names := []string{"p", "pq", "P.x"}
+	names := []string{"p", "pq", "P.x", "p.x", "P x", "p_x"} // the last four sanitise to two fragments only
 	paths := []string{"a", "ab", "a/b", "b", "x/ab", "data/a.txt", "d/d", "e/e", "d/d/f", "e/e/f", "x/d/d/f"}
 	vals := []string{"1", "x", "ab"}
 	ids := []ident{}
